@@ -444,7 +444,9 @@ func (il *inliner) rewriteBody(fd *ast.FuncDecl, sh calleeShape, label string, d
 		var sb strings.Builder
 		for i := len(defers) - 1; i >= 0; i-- {
 			if defers[i].Pos() < before {
-				sb.WriteString(il.text(defers[i].Call) + "; ")
+				il.inReturnExpr = true
+				sb.WriteString(il.typeTextFor(fd, il.text(defers[i].Call)) + "; ")
+				il.inReturnExpr = false
 			}
 		}
 		return sb.String()
@@ -1167,6 +1169,13 @@ func evaluate(P *Prog, prop, tier string, spec *propSpec, findings []Finding) (*
 	info := map[string]interface{}{"notes": notes}
 	if Q == nil {
 		info["available"] = false
+		if !quietView {
+			for _, n := range notes {
+				if strings.HasPrefix(n, "inlined view discarded") {
+					fmt.Println("inlined view: " + n)
+				}
+			}
+		}
 		return c, info
 	}
 	clearCaches()
